@@ -271,6 +271,9 @@ impl ProfibusPhy for SimPhy {
         };
         let (drop_n, res) = f(&data);
         let drop_n = drop_n.min(data.len());
+        if !data.is_empty() && std::env::var("PBVERIF_RXDUMP").is_ok() {
+            eprintln!("RX node {} t={} buf={:02x?} drop={}", self.id, now.total_micros(), data, drop_n);
+        }
         let mut b = self.bus.0.borrow_mut();
         // bytes cannot arrive while f runs (single threaded), so this is the whole remainder
         b.buf[self.id] = data[drop_n..].to_vec();
